@@ -304,6 +304,7 @@ E4_FAMILIES = [
     ("ecall", "environment calls with a known service number between every (before, after) pair of argument/result uses, and an Exit2 arm (180)"),
     ("csr", "every 3-instruction body over an 8-instruction CSR alphabet (512)"),
     ("csr2", "every 3-instruction body over 9 read/write/set/clear instructions on one CSR (729)"),
+    ("callret", "argument and return-value traffic across a call: every (before, after) pair in the caller x every 2-instruction callee body over 7 instructions (980)"),
     ("handler", "interrupt handlers (registered through utvec): every 3-instruction body over 9 spill/reload/CSR instructions between the two uscratch swaps (683)"),
     ("mix", "every (stack, arithmetic, stack) instruction triple from the two alphabets (2744)"),
     ("fp", "a function keeping a frame pointer, with every pair of instructions from the stack alphabet plus sp moves in between (324)"),
@@ -380,18 +381,19 @@ prop("C13",
 # token level for C09: nothing that makes Lexer::next see a symbolic character fits.)
 
 # ---------------------------------------------------------------------------
-# C02 (soundness clause only): engine E5 - liveness as non-interference on the call-free program families
+# C02 (soundness clause only): engine E5 - liveness as non-interference on the program families (modular across calls)
 for fam, d in E4_FAMILIES:
-    if fam in ("call", "func", "fp"):
-        continue  # what a callee reads is a convention, not a machine fact: call-free families only
-    side("e5_" + fam, "e5", ["C02", "C06"], symbolic="two register files (31 x BitVec 32 each), shared memory (Array), havoc values",
-         desc="E5: %s (programs without calls or non-exit ecalls) - two runs that agree on live_in(n) have the same observable behaviour at n and agree on live_out(n), for all machine states; live_in(succ) is a subset of live_out(n)" % d,
+    side("e5_" + fam, "e5", ["C02", "C06"], symbolic="two register files (31 x BitVec 32 each), shared memory (Array), shared CSR file, havoc values",
+         desc="E5: %s - two runs that agree on live_in(n) have the same observable behaviour at n and agree on live_out(n), for all machine states; live_in(succ) is a subset of live_out(n); a call reads its callee's inferred argument registers and clobbers t0-t6/a0-a7/ra, a return hands back the callee-saved registers and the return registers some call site reads" % d,
          bounds="program family enumerated exhaustively; word-granular memory", family=fam)
 side("e5_seq4", "e5", ["C02", "C06"], tier="thorough", symbolic="as above", desc="E5: every 4-instruction body over the alphabet",
      bounds="exhaustive", family="seq4")
 prop("C02",
-     outside="the 'least solution' clause (nothing beyond what the equations force); programs with calls, returns or non-exit "
-             "environment calls (argument/return inference, caller/callee coupling); programs outside the enumerated families; "
-             "LivenessPass::run as code (only seen through its output)",
+     outside="the 'least solution' clause (nothing beyond what the equations force; 'exactly' in the return-register clause and 'only' in the "
+             "unused-value clause); environment calls whose number is not a constant loaded immediately before; recursion and indirect calls; "
+             "programs outside the enumerated families; LivenessPass::run as code (only seen through its output); the lints that consume the sets",
      assumptions=["z3 4.8.12", "the RV32IM reference semantics in mir2smt/e2.py/e4.py", "memory is always considered live (both runs share one memory; "
-                  "stores must store equal values at equal addresses)", "the CFG edges over-approximate real control flow (C03, not checked)"])
+                  "stores must store equal values at equal addresses)", "the CFG edges over-approximate real control flow (C03, not checked)",
+                  "calling convention as the property says: a call / ecall clobbers t0-t6 and a0-a7 (a call also ra), a callee reads at most its "
+                  "argument registers and preserves sp and s0-s11, the caller may read those and a0/a1 after the return",
+                  "an ecall's service number is the constant loaded by the preceding `li a7, N`"])
